@@ -12,7 +12,7 @@ use flsrc::transposition::{Bounds, TranspositionTable};
 use serde_json::{json, Value};
 use std::collections::HashMap;
 
-pub const RULE: &str = "histories of 0..400 Store{key,eval,move,depth,bound} / Retrieve{key} ops on one table; keys from a universe built for interference (4..12 hot keys; keys agreeing in their low 8/16/20/24/32 bits or high bits or differing in one bit; 0 and u64::MAX; fresh random keys); depths 0..255 biased to equal/adjacent; arbitrary i32 scores incl. mate range. Oracle: observational model of exactly the statement (a lookup may return nothing at any time, so the model is the last OBSERVED content per key): a never-stored key has nothing; between stores retrieve(k) is what was last observed for k or nothing, and once nothing stays nothing; store(k,new) onto nothing or onto depth <= new.depth makes retrieve(k) == new at once (all five fields); store onto a deeper entry leaves that entry; checked after EVERY op for the op's key, all hot keys and 4 never-stored keys. Non-trivial = history contains for one key a store that must be rejected (shallower after deeper) AND one accepted at equal depth, and >=2 distinct keys sharing low 16 bits; distinct by op-list hash.";
+pub const RULE: &str = "histories of 0..400 Store{key,eval,move,depth,bound} / Retrieve{key} ops on one table; keys from a universe built for interference (4..12 hot keys; keys agreeing in their low 8/16/20/24/32 bits or high bits or differing in one bit; 0 and u64::MAX; fresh random keys); depths 0..255 biased to equal/adjacent; arbitrary i32 scores incl. mate range. Oracle: observational model of exactly the statement (a lookup may return nothing at any time, so the model is the last OBSERVED content per key): a never-stored key has nothing; between stores retrieve(k) is what was last observed for k or nothing, and once nothing stays nothing; store(k,new) onto nothing or onto depth <= new.depth makes retrieve(k) == new at once (all five fields); store onto a deeper entry leaves that entry; checked after EVERY op for the op's key, all hot keys and 4 never-stored keys. Long histories: 70 k .. 1.3 M operations (4.4 M thorough), most of them stores under fresh keys (the table fills with over a million distinct keys), the tracked keys (hot keys, the first 384 fresh keys, every 1024th later one) re-stored, looked up round-robin after every operation and all together every 65536 operations, same rules. Non-trivial = history contains for one key a store that must be rejected (shallower after deeper) AND one accepted at equal depth, and >=2 distinct keys sharing low 16 bits; distinct by op-list hash.";
 
 #[derive(Clone, Copy, PartialEq, Debug)]
 struct Ent {
@@ -278,6 +278,153 @@ fn judge_ops(hot: &[u64], never: &[u64], ops: &[Op], stats: &mut Stats) -> Verdi
     Ok(())
 }
 
+fn splitmix(x: u64) -> u64 {
+    let mut z = x.wrapping_add(0x9e3779b97f4a7c15);
+    z = (z ^ (z >> 30)).wrapping_mul(0xbf58476d1ce4e5b9);
+    z = (z ^ (z >> 27)).wrapping_mul(0x94d049bb133111eb);
+    z ^ (z >> 31)
+}
+
+/// Long histories: `n` operations, most of them stores under keys never used before (so the
+/// table fills with up to millions of distinct keys), interleaved with stores and lookups of a
+/// tracked set (hot keys, the first few hundred fresh keys, every 1024th later one).  Same rules
+/// as `judge_ops`; the tracked keys are probed round-robin after every operation and all together
+/// every 65536 operations.  The history is a function of (hot keys, n, salt): that is what the
+/// replay file stores.
+fn judge_long(hot: &[u64], never: &[u64], n: u64, salt: u64, stats: &mut Stats) -> Verdict {
+    let mut tt = TranspositionTable::new();
+    let mut obs: HashMap<u64, Option<Ent>> = HashMap::new();
+    let mut tracked: Vec<u64> = hot.to_vec();
+    for k in hot {
+        obs.insert(*k, None);
+    }
+    let mut forgotten = 0u64;
+    let fresh_key = |i: u64| splitmix(salt ^ i.wrapping_mul(0x2545f4914f6cdd1d)) | 1 << 40;
+    let fail = |sig: &str, opi: u64, k: u64, got: &Option<Ent>, want: String| {
+        Failure::new(sig, json!({"after_op": opi, "probe_key": format!("{:016x}", k), "got": format!("{:?}", got), "allowed": want,
+            "replay": {"long": true, "hot_keys": hot.iter().map(|k| format!("{:016x}", k)).collect::<Vec<_>>(), "never_stored_keys": never.iter().map(|k| format!("{:016x}", k)).collect::<Vec<_>>(), "ops": n, "salt": format!("{:016x}", salt)}}))
+    };
+    let probe = |tt: &TranspositionTable, obs: &mut HashMap<u64, Option<Ent>>, k: u64, opi: u64, forgotten: &mut u64| -> Verdict {
+        let got = read(tt, k);
+        let before = obs.get(&k).copied().flatten();
+        match (&got, &before) {
+            (None, None) => Ok(()),
+            (None, Some(_)) => {
+                *forgotten += 1;
+                obs.insert(k, None);
+                Ok(())
+            }
+            (Some(g), _) if Some(*g) == before => Ok(()),
+            (Some(g), _) => {
+                let sig = if g.key != k { "entry-of-another-key" } else if before.is_none() { "entry-came-back-after-lookup-returned-nothing" } else { "wrong-entry" };
+                Err(fail(sig, opi, k, &got, format!("{:?} or None", before)))
+            }
+        }
+    };
+    let mut rr = 0usize;
+    for i in 0..n {
+        let r = splitmix(salt.wrapping_add(i));
+        let revisit = r % 19 == 0 && !tracked.is_empty();
+        let key = if revisit { tracked[(r >> 8) as usize % tracked.len()] } else { fresh_key(i) };
+        let is_tracked = revisit || i < 384 || i % 1024 == 0;
+        if is_tracked && !revisit {
+            tracked.push(key);
+            obs.insert(key, None);
+        }
+        if r % 7 != 6 || !revisit {
+            // store
+            let held = obs.get(&key).copied().flatten().map(|e| e.depth);
+            let depth = match (revisit, (r >> 16) % 4) {
+                (true, 0) => held.unwrap_or(3),
+                (true, 1) => held.unwrap_or(3).wrapping_sub(1 + ((r >> 20) % 3) as u8),
+                (true, 2) => held.unwrap_or(3).wrapping_add(1),
+                _ => 1 + ((r >> 24) % 24) as u8,
+            };
+            let eval = ((r >> 32) as i32) % 3000;
+            let b = ((r >> 12) % 3) as u8;
+            let mv = Some((((r >> 40) % 64) as u8, ((r >> 46) % 64) as u8, ((r >> 52) % 6) as u8, ((r >> 56) % 5) as u8));
+            let emv = mv.map(|(f, t, p, mt)| Move::new(f, t, piece(p), mtype(mt)));
+            let pre = read(&tt, key);
+            if is_tracked {
+                let before = obs.get(&key).copied().flatten();
+                if pre.is_some() && pre != before {
+                    let sig = if pre.map(|e| e.key) != Some(key) { "entry-of-another-key" } else { "wrong-entry" };
+                    return Err(fail(sig, i, key, &pre, format!("{:?} or None", before)));
+                }
+            } else if pre.is_some() {
+                return Err(fail("returned-for-never-stored-key", i, key, &pre, "None".into()));
+            }
+            tt.store(key, eval, emv, depth, bound(b));
+            let new = Ent { key, eval, mv, depth, bound: b };
+            let post = read(&tt, key);
+            match pre {
+                Some(old) if old.depth > depth => {
+                    if post == Some(new) {
+                        return Err(fail("shallower-replaced-deeper", i, key, &post, format!("{:?}", old)));
+                    }
+                    if post.is_some() && post != Some(old) {
+                        return Err(fail("wrong-entry", i, key, &post, format!("{:?}", old)));
+                    }
+                }
+                _ => {
+                    if post != Some(new) {
+                        let sig = if post.is_none() { "accepted-store-not-retrievable" } else { "deeper-or-equal-not-accepted" };
+                        return Err(fail(sig, i, key, &post, format!("{:?}", new)));
+                    }
+                }
+            }
+            if is_tracked {
+                obs.insert(key, post);
+            }
+        }
+        stats.eval();
+        // round-robin probes after every operation, everything every 65536 operations
+        for _ in 0..4 {
+            if tracked.is_empty() {
+                break;
+            }
+            rr = (rr + 1) % tracked.len();
+            let k = tracked[rr];
+            probe(&tt, &mut obs, k, i, &mut forgotten)?;
+        }
+        if i % 65536 == 65535 || i + 1 == n {
+            for k in tracked.clone() {
+                probe(&tt, &mut obs, k, i, &mut forgotten)?;
+            }
+            for k in never {
+                let got = read(&tt, *k);
+                if got.is_some() {
+                    return Err(fail("returned-for-never-stored-key", i, *k, &got, "None".into()));
+                }
+            }
+        }
+    }
+    stats.class("long_histories");
+    stats.maximum("long_history_distinct_keys", (n - n / 19) as i64);
+    if forgotten > 0 {
+        stats.class_n("entries_the_table_forgot_(allowed)", forgotten);
+    }
+    stats.nontrivial(&(n, salt));
+    stats.sample(|| json!({"long_history_ops": n, "tracked_keys": tracked.len(), "salt": format!("{:016x}", salt)}));
+    Ok(())
+}
+
+thread_local! {
+    static LONG_MAX: std::cell::Cell<u64> = std::cell::Cell::new(1_300_000);
+}
+
+fn check_long(bytes: &[u8], stats: &mut Stats) -> Verdict {
+    let mut s = Src::new(bytes);
+    let hot = gen_universe(&mut s);
+    let never: Vec<u64> = (0..4).map(|i| hot[0].rotate_left(7 * (i + 1)) ^ 0xa5a5_5a5a_dead_beef ^ i as u64).filter(|k| !hot.contains(k)).collect();
+    let max = LONG_MAX.with(|c| c.get());
+    // sizes around the powers of two a capacity limit would sit at
+    let n = *s.pick(&[70_000u64, 140_000, 280_000, 540_000, 1_100_000, 1_300_000, 2_200_000, 4_400_000]);
+    let n = n.min(max);
+    let salt = s.u64();
+    judge_long(&hot, &never, n, salt, stats)
+}
+
 /// Byte-level entry for the fuzz target.
 pub fn fuzz_entry(bytes: &[u8]) -> Verdict {
     let mut st = Stats::new();
@@ -293,18 +440,40 @@ pub fn run(tier: Tier, seed: u64, known: &Known) -> PropRun {
     let part = Part { name: "ops", cases: tier.pick(100_000, 1_000_000), min_len: 64, max_len: 6000, max_shrink: 6000, threads: threads() };
     let (st, fl) = run_part(&part, seed, known, check);
     run.stats.merge(st);
+    if fl.is_some() {
+        run.failure = fl;
+        return run;
+    }
+    // long histories: the table filled with more than a million distinct keys
+    let lmax = tier.pick(1_300_000u64, 4_400_000u64);
+    let part = Part { name: "long", cases: tier.pick(16, 96), min_len: 64, max_len: 200, max_shrink: 8, threads: threads().min(8) };
+    let (st, fl) = run_part(&part, seed, known, |b, st| {
+        LONG_MAX.with(|c| c.set(lmax));
+        check_long(b, st)
+    });
+    run.stats.merge(st);
     run.failure = fl;
     run
 }
 
-pub fn replay(_part: &str, bytes: &[u8], case: &Value, stats: &mut Stats) -> Verdict {
-    // structural replay: the saved op list
+pub fn replay(part: &str, bytes: &[u8], case: &Value, stats: &mut Stats) -> Verdict {
+    // structural replay: the saved op list (or the parameters of a long history)
     if let Some(r) = case.get("replay") {
+        if r.get("long").and_then(|x| x.as_bool()) == Some(true) {
+            let keys = |k: &str| -> Vec<u64> { r.get(k).and_then(|x| x.as_array()).map(|a| a.iter().filter_map(|v| v.as_str().and_then(|s| u64::from_str_radix(s, 16).ok())).collect()).unwrap_or_default() };
+            let n = r.get("ops").and_then(|x| x.as_u64()).unwrap_or(0);
+            let salt = r.get("salt").and_then(|x| x.as_str()).and_then(|s| u64::from_str_radix(s, 16).ok()).unwrap_or(0);
+            return judge_long(&keys("hot_keys"), &keys("never_stored_keys"), n, salt, stats);
+        }
         let keys = |k: &str| -> Vec<u64> { r.get(k).and_then(|x| x.as_array()).map(|a| a.iter().filter_map(|v| v.as_str().and_then(|s| u64::from_str_radix(s, 16).ok())).collect()).unwrap_or_default() };
         if let Some(ops) = r.get("ops").and_then(|x| x.as_array()) {
             let ops: Vec<Op> = ops.iter().filter_map(op_from_json).collect();
             return judge_ops(&keys("hot_keys"), &keys("never_stored_keys"), &ops, stats);
         }
+    }
+    if part == "long" {
+        LONG_MAX.with(|c| c.set(4_400_000));
+        return check_long(bytes, stats);
     }
     check(bytes, stats)
 }
